@@ -7,6 +7,10 @@ import sys
 import time
 
 VERIF = os.path.dirname(os.path.dirname(os.path.abspath(__file__)))
+# a run pointed at a scratch tree (PYASN1_REPO=<worktree>, used to try seeded changes) must not overwrite the evidence and
+# replay files that describe /repo itself
+_SCRATCH_TREE = os.path.realpath(os.environ.get('PYASN1_REPO', '/repo')) != os.path.realpath('/repo')
+OUT = os.path.join(VERIF, 'scratch', 'scratch-tree-run') if _SCRATCH_TREE else VERIF
 REPO = os.environ.get('PYASN1_REPO', '/repo')
 
 EXIT_OK, EXIT_VIOLATION, EXIT_MACHINERY = 0, 1, 2
@@ -114,8 +118,8 @@ class Ctx:
         ev = {'property_id': self.prop, 'tier': self.tier, 'seed': self.seed, 'level': 'model_checking',
               'coverage': cov, 'assumptions': self.assumptions, 'wall_s': round(wall, 2),
               'violations': len(seen)}
-        os.makedirs(os.path.join(VERIF, 'evidence'), exist_ok=True)
-        with open(os.path.join(VERIF, 'evidence', self.prop + '.json'), 'w') as f:
+        os.makedirs(os.path.join(OUT, 'evidence'), exist_ok=True)
+        with open(os.path.join(OUT, 'evidence', self.prop + '.json'), 'w') as f:
             json.dump(ev, f, indent=1, sort_keys=True, default=str)
         print('%s %s: states=%d transitions=%d traces=%d evaluations=%d distinct=%d known=%s violations=%d wall=%.1fs' % (
             self.prop, self.tier, self.states, self.transitions, self.traces, self.evaluations,
@@ -159,7 +163,7 @@ def match_finding(findings, features):
 
 # -------------------------------------------------------------------- replay files
 def write_replay(prop, obj):
-    d = os.path.join(VERIF, 'replays', prop)
+    d = os.path.join(OUT, 'replays', prop)
     os.makedirs(d, exist_ok=True)
     blob = json.dumps(obj, sort_keys=True, default=str)
     h = hashlib.sha1(blob.encode()).hexdigest()[:12]
